@@ -74,7 +74,7 @@ ASSUMPTIONS = [
 ]
 
 U = 2.220446049250313e-16
-DET_MIN = F(1, 10 ** 8)
+DET_MIN = F(4, 10 ** 10)      # four times the library's absolute zero threshold (base.TOL = 1e-10)
 
 
 def kfloat(kap):
@@ -564,7 +564,17 @@ def _clip(v):
 
 @st.composite
 def xsets(draw, n, dyadic=False):
-    mode = draw(st.sampled_from(["wide", "mid", "unit", "cluster", "cluster", "grid", "ints"]))
+    mode = draw(st.sampled_from(["wide", "mid", "unit", "cluster", "cluster", "grid", "ints", "tiny"]))
+    if mode == "tiny":
+        # a small spread about the origin: the sums of squares and the determinant of the normal
+        # equations come down to within a few orders of magnitude of the library's absolute zero
+        # threshold while the problem stays perfectly conditioned
+        w = draw(S.log_uniform(1e-6, 1e-2))
+        offs = draw(st.lists(st.integers(-8, 8), min_size=n, max_size=n, unique=(n <= 12)))
+        xs = [w * o + 0.0 for o in offs]
+        if len(set(xs)) < 2:
+            xs[0] = xs[0] + w
+        return "cluster", xs
     if mode == "ints":
         # Python ints (documented input type): small tables of counts, and tables that look like
         # the index set 0..n-1 of the single-sequence form without being it
@@ -694,7 +704,8 @@ def corr_cases(draw):
     # a change of units: pure rescaling by many orders of magnitude (no offset, so the relative
     # spread of the data is untouched) of one variable or of both
     units = draw(st.sampled_from([None, None, (1e-6, 1.0), (1.0, 1e-6), (2.0 ** -30, 2.0 ** -30), (1e5, 1e-8),
-                                  (2.0 ** 20, 1.0)]))
+                                  (2.0 ** 20, 1.0), (2.0 ** 300, 2.0 ** 300), (2.0 ** -300, 2.0 ** -300),
+                                  (2.0 ** 200, 2.0 ** -200), (2.0 ** 400, 1.0)]))
     if units is not None:
         aff = [units[0], 0.0, units[1], 0.0]
     return {"x": xs, "y": ys, "aff": aff, "xmode": mode}
